@@ -111,7 +111,7 @@ pub fn mutate_check(bytes: &[u8], script: &[BOp], rep: &mut CaseReport) -> Resul
 
 fn report(c: &CorruptCase) -> CaseReport {
     let mut rep = CaseReport { evaluations: 1, ..CaseReport::default() };
-    let (bytes, applied, desc) = match damaged_input(c) {
+    let (bytes, applied, desc, kinds) = match damaged_input(c) {
         Ok(x) => x,
         Err(f) => {
             if f.key.starts_with("harness|") {
@@ -129,6 +129,7 @@ fn report(c: &CorruptCase) -> CaseReport {
                 return rep;
             }
             rep.classes.push("accepted".into());
+            rep.classes.extend(kinds.iter().map(|k| format!("{}_accepted", k)));
             let inconsistent = refparse::check(&bytes).len() > 0;
             if inconsistent {
                 rep.classes.push("accepted_inconsistent".into());
